@@ -14,24 +14,35 @@ Theorem C14_reader_exact_partial : forall base ds,
 Proof. exact read_int_exact. Qed.
 Print Assumptions C14_reader_exact_partial.
 
-(* full statement [reader_exact] is false today: 2^160 written in decimal reads as 0 *)
-Theorem C14_reader_exact_refuted : ~ reader_exact.
-Proof. exact reader_exact_refuted. Qed.
-Print Assumptions C14_reader_exact_refuted.
+(* decimal literals (after 96cb9da): the reader produces an integer only when it is the exact value of the
+   digits; values the big numbers cannot hold are handed to the float reader (like Lua), never wrapped *)
+Theorem C14_reader_dec_exact : forall ds v, nl_read_dec ds = Some v -> v = digits_value 10 0 ds.
+Proof. exact read_dec_exact. Qed.
+Print Assumptions C14_reader_dec_exact.
+
+Theorem C14_reader_dec_complete : forall ds,
+  - 2 ^ (BN_BITS - 1) <= digits_value 10 0 ds < 2 ^ (BN_BITS - 1) -> nl_read_dec ds = Some (digits_value 10 0 ds).
+Proof. exact read_dec_complete. Qed.
+Print Assumptions C14_reader_dec_complete.
+
+Theorem C14_reader_dec_float : forall ds, 2 ^ (BN_BITS - 1) <= digits_value 10 0 ds -> nl_read_dec ds = None.
+Proof. exact read_dec_float. Qed.
+Print Assumptions C14_reader_dec_float.
+
+(* hexadecimal / binary integer spellings of any length: the same value as Lua's reader, which wraps them
+   modulo 2^64 *)
+Theorem C14_reader_eq_lua_mod64 : forall base ds, wrap64 (nl_read_int base ds) = wrap64 (digits_value base 0 ds).
+Proof. exact read_int_eq_lua_mod64. Qed.
+Print Assumptions C14_reader_eq_lua_mod64.
 
 (* ---- the C literal printer against ISO C's typing of integer constants ---- *)
-(* full statement [literal_roundtrip] (every type up to 64 bits, every value in [-2^159, 2^159), every
-   base) is false today: IntegralType:wrap_value is wrong beyond one wrap on the signed side *)
-Theorem C14_literal_roundtrip_refuted : ~ literal_roundtrip.
-Proof. exact literal_roundtrip_refuted. Qed.
-Print Assumptions C14_literal_roundtrip_refuted.
-
-Theorem C14_literal_roundtrip_partial : forall T v base, In T all_int_types -> it_bits T <= 64 ->
+(* full strength (after 59c538f): every scraped integral type up to 64 bits, every value in [-2^159, 2^159),
+   every base: the emitted token has a C type of T's signedness and denotes wrap_T(v) itself *)
+Theorem C14_literal_roundtrip : forall T v base, In T all_int_types -> it_bits T <= 64 ->
   - 2 ^ (BN_BITS - 1) <= v < 2 ^ (BN_BITS - 1) ->
-  it_bits T < 64 \/ it_signed T = false \/ it_inrange T (nl_prewrap T v) = true ->
-  exists w val, c_eval (nl_emit T v base) = Some ((w, it_signed T), val) /\ c_convert T val = wrap_T T v.
-Proof. exact literal_roundtrip_partial. Qed.
-Print Assumptions C14_literal_roundtrip_partial.
+  exists w val, c_eval (nl_emit T v base) = Some ((w, it_signed T), val) /\ val = wrap_T T v /\ c_convert T val = wrap_T T v.
+Proof. exact literal_roundtrip. Qed.
+Print Assumptions C14_literal_roundtrip.
 
 (* ---- run time ---- *)
 Theorem C14_int2str_str2int_roundtrip : forall x, in_i64 x ->
